@@ -252,3 +252,5 @@ def multiple_of_unit(kf):
 
 UNITS = {'c08_lengths': (['C08'], length_unit), 'c08_multiple_of': (['C08'], multiple_of_unit)}
 SEARCH = {'c08_lengths': ['c08_len'], 'c08_multiple_of': ['c08_num_search_multiple_of']}
+
+BOUNDED = {'C08': [dict(case='c08_len', function='max_length / min_length / chars_* / max_items / min_items validators through their public functions', bound='boundary lengths around n for ASCII and multi-byte strings and small vectors', why='concrete cross-check of the length kernels (which are proved) on the compiled code')]}
